@@ -47,28 +47,78 @@ func T(v Value) string {
 
 func isSym(v Value) bool { _, ok := v.(*Sym); return ok }
 
-func bitsOf(v Value) int {
+// rng returns the conservatively known interval of an integer value (nil = unknown bound).
+func rng(v Value) (lo, hi *big.Int) {
 	switch x := v.(type) {
 	case *big.Int:
-		return x.BitLen() + 1
+		return x, x
 	case *Sym:
-		return x.Bits
+		return x.Lo, x.Hi
 	}
-	return 0
+	return nil, nil
 }
 
 func nonNeg(v Value) bool {
-	switch x := v.(type) {
-	case *big.Int:
-		return x.Sign() >= 0
-	case *Sym:
-		return x.NonNeg
-	}
-	return false
+	lo, _ := rng(v)
+	return lo != nil && lo.Sign() >= 0
 }
 
-func symI(t string, bits int, nn bool) *Sym { return &Sym{S: SInt, T: t, Bits: bits, NonNeg: nn} }
-func symB(t string) *Sym                    { return &Sym{S: SBool, T: t} }
+// within: the value is known to lie in [lo, hi].
+func within(v Value, lo, hi *big.Int) bool {
+	l, h := rng(v)
+	return l != nil && h != nil && l.Cmp(lo) >= 0 && h.Cmp(hi) <= 0
+}
+
+// absBelow: |v| < limit is known.
+func absBelow(v Value, limit *big.Int) bool {
+	l, h := rng(v)
+	if l == nil || h == nil {
+		return false
+	}
+	return new(big.Int).Abs(l).Cmp(limit) < 0 && new(big.Int).Abs(h).Cmp(limit) < 0
+}
+
+func maxAbs(lo, hi *big.Int) *big.Int {
+	a, b := new(big.Int).Abs(lo), new(big.Int).Abs(hi)
+	if a.Cmp(b) > 0 {
+		return a
+	}
+	return b
+}
+
+func symI(t string, lo, hi *big.Int) *Sym { return &Sym{S: SInt, T: t, Lo: lo, Hi: hi} }
+func symB(t string) *Sym                  { return &Sym{S: SBool, T: t} }
+
+// withRange returns s with its interval intersected with [lo, hi] (nil = no constraint).
+func withRange(s *Sym, lo, hi *big.Int) *Sym {
+	n := &Sym{S: s.S, T: s.T, Lo: s.Lo, Hi: s.Hi}
+	if lo != nil && (n.Lo == nil || lo.Cmp(n.Lo) > 0) {
+		n.Lo = lo
+	}
+	if hi != nil && (n.Hi == nil || hi.Cmp(n.Hi) < 0) {
+		n.Hi = hi
+	}
+	return n
+}
+
+func bmin(xs ...*big.Int) *big.Int {
+	m := xs[0]
+	for _, x := range xs[1:] {
+		if x.Cmp(m) < 0 {
+			m = x
+		}
+	}
+	return m
+}
+func bmax(xs ...*big.Int) *big.Int {
+	m := xs[0]
+	for _, x := range xs[1:] {
+		if x.Cmp(m) > 0 {
+			m = x
+		}
+	}
+	return m
+}
 
 func asBig(v Value) *big.Int {
 	if b, ok := v.(*big.Int); ok {
@@ -89,11 +139,16 @@ func mkAdd(a, b Value) Value {
 	if yo && y.Sign() == 0 {
 		return a
 	}
-	bits := 0
-	if bitsOf(a) > 0 && bitsOf(b) > 0 {
-		bits = max(bitsOf(a), bitsOf(b)) + 1
+	al, ah := rng(a)
+	bl, bh := rng(b)
+	var lo, hi *big.Int
+	if al != nil && bl != nil {
+		lo = new(big.Int).Add(al, bl)
 	}
-	return symI("(+ "+T(a)+" "+T(b)+")", bits, nonNeg(a) && nonNeg(b))
+	if ah != nil && bh != nil {
+		hi = new(big.Int).Add(ah, bh)
+	}
+	return symI("(+ "+T(a)+" "+T(b)+")", lo, hi)
 }
 
 func mkSub(a, b Value) Value {
@@ -105,21 +160,34 @@ func mkSub(a, b Value) Value {
 	if yo && y.Sign() == 0 {
 		return a
 	}
-	bits := 0
-	if bitsOf(a) > 0 && bitsOf(b) > 0 {
-		bits = max(bitsOf(a), bitsOf(b)) + 1
-	}
 	if T(a) == T(b) {
 		return big.NewInt(0)
 	}
-	return symI("(- "+T(a)+" "+T(b)+")", bits, false)
+	al, ah := rng(a)
+	bl, bh := rng(b)
+	var lo, hi *big.Int
+	if al != nil && bh != nil {
+		lo = new(big.Int).Sub(al, bh)
+	}
+	if ah != nil && bl != nil {
+		hi = new(big.Int).Sub(ah, bl)
+	}
+	return symI("(- "+T(a)+" "+T(b)+")", lo, hi)
 }
 
 func mkNeg(a Value) Value {
 	if x, ok := a.(*big.Int); ok {
 		return new(big.Int).Neg(x)
 	}
-	return symI("(- "+T(a)+")", bitsOf(a), false)
+	al, ah := rng(a)
+	var lo, hi *big.Int
+	if ah != nil {
+		lo = new(big.Int).Neg(ah)
+	}
+	if al != nil {
+		hi = new(big.Int).Neg(al)
+	}
+	return symI("(- "+T(a)+")", lo, hi)
 }
 
 func mkMul(a, b Value) Value {
@@ -137,11 +205,16 @@ func mkMul(a, b Value) Value {
 	if yo && y.Cmp(big.NewInt(1)) == 0 {
 		return a
 	}
-	bits := 0
-	if bitsOf(a) > 0 && bitsOf(b) > 0 {
-		bits = bitsOf(a) + bitsOf(b)
+	al, ah := rng(a)
+	bl, bh := rng(b)
+	var lo, hi *big.Int
+	if al != nil && ah != nil && bl != nil && bh != nil {
+		p1, p2, p3, p4 := new(big.Int).Mul(al, bl), new(big.Int).Mul(al, bh), new(big.Int).Mul(ah, bl), new(big.Int).Mul(ah, bh)
+		lo, hi = bmin(p1, p2, p3, p4), bmax(p1, p2, p3, p4)
+	} else if nonNeg(a) && nonNeg(b) {
+		lo = big.NewInt(0)
 	}
-	return symI("(* "+T(a)+" "+T(b)+")", bits, nonNeg(a) && nonNeg(b))
+	return symI("(* "+T(a)+" "+T(b)+")", lo, hi)
 }
 
 // mkQuoT: Go / big.Int.Quo truncated division. Divisor must be known non-zero by the caller.
@@ -154,10 +227,16 @@ func mkQuoT(a, b Value) Value {
 	if yo && y.Cmp(big.NewInt(1)) == 0 {
 		return a
 	}
+	al, ah := rng(a)
 	if nonNeg(a) && nonNeg(b) {
-		return symI("(div "+T(a)+" "+T(b)+")", bitsOf(a), true)
+		return symI("(div "+T(a)+" "+T(b)+")", big.NewInt(0), ah)
 	}
-	return symI("(tdiv "+T(a)+" "+T(b)+")", bitsOf(a), false)
+	var lo, hi *big.Int
+	if al != nil && ah != nil {
+		m := maxAbs(al, ah)
+		lo, hi = new(big.Int).Neg(m), m
+	}
+	return symI("(tdiv "+T(a)+" "+T(b)+")", lo, hi)
 }
 
 func mkRemT(a, b Value) Value {
@@ -166,10 +245,22 @@ func mkRemT(a, b Value) Value {
 	if xo && yo {
 		return new(big.Int).Rem(x, y)
 	}
-	if nonNeg(a) && nonNeg(b) {
-		return symI("(mod "+T(a)+" "+T(b)+")", bitsOf(b), true)
+	bl, bh := rng(b)
+	var m *big.Int
+	if bl != nil && bh != nil {
+		m = new(big.Int).Sub(maxAbs(bl, bh), big.NewInt(1))
+		if m.Sign() < 0 {
+			m = big.NewInt(0)
+		}
 	}
-	return symI("(trem "+T(a)+" "+T(b)+")", bitsOf(b), false)
+	if nonNeg(a) && nonNeg(b) {
+		return symI("(mod "+T(a)+" "+T(b)+")", big.NewInt(0), m)
+	}
+	var lo *big.Int
+	if m != nil {
+		lo = new(big.Int).Neg(m)
+	}
+	return symI("(trem "+T(a)+" "+T(b)+")", lo, m)
 }
 
 // mkDivE / mkModE: Euclidean (big.Int.Div / Mod), which is SMT-LIB div/mod.
@@ -179,7 +270,16 @@ func mkDivE(a, b Value) Value {
 	if xo && yo {
 		return new(big.Int).Div(x, y)
 	}
-	return symI("(div "+T(a)+" "+T(b)+")", bitsOf(a), nonNeg(a) && nonNeg(b))
+	al, ah := rng(a)
+	if nonNeg(a) && nonNeg(b) {
+		return symI("(div "+T(a)+" "+T(b)+")", big.NewInt(0), ah)
+	}
+	var lo, hi *big.Int
+	if al != nil && ah != nil {
+		m := new(big.Int).Add(maxAbs(al, ah), big.NewInt(1))
+		lo, hi = new(big.Int).Neg(m), m
+	}
+	return symI("(div "+T(a)+" "+T(b)+")", lo, hi)
 }
 
 func mkModE(a, b Value) Value {
@@ -188,7 +288,15 @@ func mkModE(a, b Value) Value {
 	if xo && yo {
 		return new(big.Int).Mod(x, y)
 	}
-	return symI("(mod "+T(a)+" "+T(b)+")", bitsOf(b), true)
+	bl, bh := rng(b)
+	var m *big.Int
+	if bl != nil && bh != nil {
+		m = new(big.Int).Sub(maxAbs(bl, bh), big.NewInt(1))
+		if m.Sign() < 0 {
+			m = big.NewInt(0)
+		}
+	}
+	return symI("(mod "+T(a)+" "+T(b)+")", big.NewInt(0), m)
 }
 
 func mkCmp(op string, a, b Value) Value {
@@ -316,11 +424,16 @@ func mkIte(c, a, b Value) Value {
 	if T(a) == T(b) {
 		return a
 	}
-	bits := 0
-	if bitsOf(a) > 0 && bitsOf(b) > 0 {
-		bits = max(bitsOf(a), bitsOf(b))
+	al, ah := rng(a)
+	bl, bh := rng(b)
+	var lo, hi *big.Int
+	if al != nil && bl != nil {
+		lo = bmin(al, bl)
 	}
-	return symI("(ite "+T(c)+" "+T(a)+" "+T(b)+")", bits, nonNeg(a) && nonNeg(b))
+	if ah != nil && bh != nil {
+		hi = bmax(ah, bh)
+	}
+	return symI("(ite "+T(c)+" "+T(a)+" "+T(b)+")", lo, hi)
 }
 
 func isBoolSym(v Value) bool {
@@ -335,6 +448,4 @@ func pow2(n int) *big.Int { return new(big.Int).Lsh(big.NewInt(1), uint(n)) }
 
 var pow10_18 = new(big.Int).Exp(big.NewInt(10), big.NewInt(18), nil)
 
-func app1(f string, a Value, bits int) Value {
-	return symI("("+f+" "+T(a)+")", bits, false)
-}
+
